@@ -207,9 +207,16 @@ class HHRecorder:
 
     def saveload(self, s, t, shm=False):
         p = impl.tmpfile()
-        self.slots[s].save(p)
-        new = impl.heavyhitters.HeavyHitters.load(p, shared_memory=shm)
-        os.unlink(p)
+        try:
+            self.slots[s].save(p)
+            new = impl.heavyhitters.HeavyHitters.load(p, shared_memory=shm)
+        except Exception as exc:
+            if impl.STRICT_PERSIST:
+                self.emit({"ev": "saveload_failed", "s": s + 1, "t": t + 1, "exc": repr(exc)[:200]})
+            return
+        finally:
+            if os.path.exists(p):
+                os.unlink(p)
         thr = default_thr(new.phi, self.slots[s].n_added())
         self.slots[t] = new
         self.emit({"ev": "saveload", "s": s + 1, "t": t + 1, "thr": big(thr)})
